@@ -388,6 +388,8 @@ def prop_violation(c, prop=None):
 def corr_mismatch(c):
     if c.model == "-":
         return None
+    if c.go.startswith("HANG") and (c.model.startswith("OOF") or c.model.startswith("MODEL-TIMEOUT")):
+        return None   # both diverge: outside every property's quantifier (terminating programs)
     if go_core(c.go) != c.model:
         return "go=%s model=%s" % (go_core(c.go)[:300], c.model[:300])
     return None
@@ -534,7 +536,7 @@ def main(argv):
                 cs, st = run_cases(ctx, name, cases_file=corpus, origin="corpus", tag="c")
                 all_cases += cs
             n = eng.get(ctx.tier, eng.get("quick", 1000))
-            seeds = [seed] if ctx.tier == "quick" else [seed, seed + 1, seed + 2]
+            seeds = [seed] if (ctx.tier == "quick" or eng.get("deterministic")) else [seed, seed + 1, seed + 2]
             for s in seeds:
                 cs, st = run_cases(ctx, name, n=n, seed=s, tag="g%d" % s, extra=eng.get("extra"))
                 all_cases += cs
